@@ -70,7 +70,9 @@ func (d *Dir) Write(files map[string][]byte) error {
 	// behind, which would make every later symlink creation fail: remove it (it is fine if it does not exist)
 	_ = os.Remove(d.target + ".new")
 
-	if err := os.Symlink(newDir, d.target+".new"); err != nil {
+	// The link is created next to the version directory: refer to it by name, so that the link also resolves when
+	// the target was given as a relative path (a relative link text is resolved from the directory of the link).
+	if err := os.Symlink(filepath.Base(newDir), d.target+".new"); err != nil {
 		return err
 	}
 
